@@ -92,6 +92,8 @@ impl SharedHistory {
             // Nothing has changed.
             false
         };
+        #[cfg(routinator_verif)]
+        crate::verif::preempt("history-update-mid");
         // Update the snapshot. The refresh time and object information may
         // have changed.
         history.current = Some(snapshot.into());
